@@ -9,7 +9,7 @@
     for all values and all builder states. *)
 From Coq Require Import List NArith ZArith Bool.
 From Tongo Require Import Lib.Bits Lib.Res Model.TlbCore Spec.TlbSchema Spec.BlockTlb
-  Proofs.TlbCoreP Proofs.TlbCoreC Proofs.TlbSchemaP Proofs.TlbSchemaX.
+  Proofs.TlbCoreP Proofs.TlbCoreC Proofs.TlbSchemaP Proofs.TlbSchemaX Model.TlbLib.
 Import ListNotations.
 
 Theorem C04_refines_sound : forall fuel s d env v x,
@@ -40,6 +40,16 @@ Proof.
   destruct (encode_is_schema _ _ _ _ _ _ _ Hr He) as (bs' & rs' & Hs' & Hb & Hrf).
   rewrite Hs in Hs'. injection Hs' as <- <-. unfold finish. rewrite Hb, Hrf. reflexivity.
 Qed.
+
+(** A library resolver configured on the decoder (Decoder.WithLibraryResolver) can only
+    change what is decoded at TYPED positions: a library cell met where the target is a
+    raw cell (boc.Cell behind ^ / Ref, StateInit code and data) or an Any is kept as it
+    is under every decoder configuration, so decode -> encode reproduces its hash.
+    (Model of the prologue of tlb/decoder.go: decode; tied to the code by the
+    decoder-configuration family of the C03/C04 generators.) *)
+Theorem C04_library_resolver_scope : forall tgt r1 r2 lib,
+  tgt <> TgtTyped -> lib_step tgt r1 lib = LibKeep lib /\ lib_step tgt r1 lib = lib_step tgt r2 lib.
+Proof. exact lib_resolver_scope. Qed.
 
 (** Primitive exactness. *)
 Theorem C04_numeral_exact : forall n x l,
